@@ -39,6 +39,10 @@ class Fixture:
         w("mid.json", b'{"k":"' + b"m" * 9000 + b'"}')
         w("big.json", b"".join(b'{"n":%d,"p":"%s"}\n' % (i, b"x" * 90) for i in range(900)))
         w("huge.json", b"".join(b'{"n":%d,"p":"%s"}\n' % (i, b"y" * 180) for i in range(3000)))
+        # streams of tiny documents whose first document has 1..6 digits: the 8 KiB buffer then fills up inside every kind
+        # of write (a body, a JSON newline, a YAML '---' line) for some member of the family
+        for L in range(1, 7):
+            w("docs%d.json" % L, b"1" * L + b" 0" * 12000)
         w("X.JSON", b'{"upper":true}')
         w("x.Yml", b"yml: 1\n")
         w("x.YAML", b"yaml: 1\n")
